@@ -7,7 +7,7 @@
    iterative stack machine of CheckMerkleBlock ([check_merkle_block]) is tied
    to it, and both to the Go code, by the correspondence run (see notes/C08.md). *)
 From Coq Require Import List Bool NArith.
-From ELA Require Import model.C07_Merkle model.C08_PMT proof.C08_PMT.
+From ELA Require Import model.C07_Merkle model.C08_PMT proof.C08_PMT proof.C08_Sweep.
 (* the correspondence checker is required (not imported) only so that building this
    file also rebuilds it when the model changes; no theorem below uses it *)
 From ELA Require corr.C08_corr.
@@ -64,11 +64,24 @@ Section C08.
   Proof. exact (branch_eval hash H2 h0). Qed.
 End C08.
 
+(* The iterative stack machine of CheckMerkleBlock agrees with the recursive
+   reference verifier on an exhaustively swept finite domain: claimed counts
+   0..6, no flag byte or any one flag byte (all 256 values), every hash list of
+   length <= 3 over three values, root = the one the parser computes or 0, for a
+   deliberately colliding parent function.  (The unbounded equality is not
+   proved; beyond this domain the two are compared on every run, see notes.) *)
+Theorem C08_iter_eq_parse_bounded : forall n fl hs r,
+  In n sweep_counts -> In fl sweep_flags -> In hs sweep_hashes -> In r (sweep_roots n fl hs) ->
+  agree (check_merkle_block N N.eq_dec sweep_h2 n r fl hs)
+        (parse_top N N.eq_dec sweep_h2 (N.to_nat n) r fl hs) = true.
+Proof. exact iter_eq_parse_bounded. Qed.
+
 Print Assumptions C08_pmt_root_is_block_root.
 Print Assumptions C08_parse_build.
 Print Assumptions C08_parse_sound.
 Print Assumptions C08_parse_sound_any_count.
 Print Assumptions C08_branch_eval.
+Print Assumptions C08_iter_eq_parse_bounded.
 
 (* Non-vacuity: a 5-transaction block, pattern {1, 4}: the built message
    verifies (recursive parser and iterative checker) to exactly [2; 5]; the
